@@ -150,6 +150,40 @@ fn defect_model(bytes: &[u8], steps: &[AStep], set: &[u64]) -> Obs {
     }
 }
 
+/// Does the source stay ahead of the parser? One source read happens per next() call; `need[k]` is the number of
+/// bytes that must have arrived for the call that yields the k-th item of the blocking parse (the last entry: the
+/// terminating call) never to see "nothing more yet": a Start needs its header, a leaf its whole element, an End
+/// or a buffered master the element that follows it (or the end of input). Computed from the blocking parse and
+/// the input bytes with RefCodec only. On such schedules the known finding D17 cannot manifest.
+fn source_stays_ahead(bytes: &[u8], steps: &[AStep], blocking: &Obs) -> bool {
+    let n = blocking.items.len();
+    let mut need = vec![bytes.len(); n + 1];
+    for k in (0..n).rev() {
+        let (item, off) = &blocking.items[k];
+        need[k] = match item {
+            NItem::End(_) | NItem::Full(..) => need[k + 1],
+            NItem::Start(_) => match crate::refmodel::decode_header(&bytes[(*off).min(bytes.len())..]) {
+                Some(h) => off + h.id_len + h.size_len,
+                None => bytes.len(),
+            },
+            NItem::Leaf(..) | NItem::Raw(..) => match crate::refmodel::decode_header(&bytes[(*off).min(bytes.len())..]) {
+                Some(h) => (off + h.id_len + h.size_len + h.size.unwrap_or(0) as usize).min(bytes.len()),
+                None => bytes.len(),
+            },
+        };
+    }
+    let chunks: Vec<usize> = steps.iter().filter_map(|s| if let AStep::Chunk(m) = s { Some(*m) } else { None }).collect();
+    let mut delivered = 0usize;
+    for (k, nd) in need.iter().enumerate() {
+        let m = if k < chunks.len() { chunks[k] } else { usize::MAX };
+        delivered += m.max(1).min(65536).min(bytes.len() - delivered);
+        if delivered < *nd {
+            return false;
+        }
+    }
+    true
+}
+
 fn non_empty_reads(len: usize, steps: &[AStep]) -> usize {
     // how many reads deliver data before the input is exhausted
     let mut pos = 0;
@@ -189,8 +223,14 @@ fn check(ctx: &mut Ctx, bytes: &[u8], steps: &[AStep], set: &[u64], origin: &str
     if !stream_same {
         ctx.violation("stream-adapter-differs-from-next-loop", &d, &format!("next loop {} | stream [{}] -> {}", obs.short(), sitems.iter().map(|i| i.short()).collect::<Vec<_>>().join(" "), sterm.short()));
     }
+    let ahead = reads >= 2 && source_stays_ahead(bytes, steps, &blocking);
+    if ahead {
+        ctx.count("multi_read_schedules_on_which_the_source_stays_ahead_of_the_parser", 1);
+    }
     if obs == blocking {
         ctx.count(if reads >= 2 { "multi_read_schedules_equal_to_blocking" } else { "single_read_schedules_equal_to_blocking" }, 1);
+    } else if ahead {
+        ctx.violation("multi-read/source-stays-ahead-of-the-parser-but-differs-from-blocking", &d, &format!("blocking {} | async {}", blocking.short(), obs.short()));
     } else if reads < 2 {
         ctx.violation("single-read-schedule/differs-from-blocking-iterator", &d, &format!("blocking {} | async {}", blocking.short(), obs.short()));
     } else {
